@@ -14,4 +14,15 @@ CLAIMS = {
                 "RecursionError from deep nesting is out of scope by the property's own quantifier.",
         "technique": "property-based fuzzing with an exception-class oracle (Hypothesis; atheris in thorough)",
     },
+    "C17": {
+        "level": "Generated-input search (Hypothesis): ~21k (quick) / ~500k (thorough) sources - grammar programs "
+                 "printed with random layout, their truncation/edit mutants, the 995 CTS templates and corpus "
+                 "mutants, Liquid-biased text; oracle = top-level tokens tile the source exactly, expression and "
+                 "line-statement tokens nest in order with slices equal to their values (paths re-lex to the same "
+                 "path), every node/expression/error token position lies in [0, len] and error line/column match an "
+                 "independent computation. Exploration only.",
+        "design_ref": "DESIGN.md §3 C17",
+        "note": "An empty error span at len(source) is accepted; template-string tokens are only required to nest.",
+        "technique": "property-based testing with tiling / re-lex round-trip oracle (Hypothesis)",
+    },
 }
